@@ -44,7 +44,7 @@ using Mesh = GeometryKernel<Vec3d, Topo>;
 enum OpK : uint8_t {
     ADD_VERTEX, ADD_N_VERTICES, ADD_EDGE, ADD_FACE_V, ADD_FACE_HE, ADD_CELL_HF, ADD_CELL_V,
     SET_EDGE, SET_FACE, SET_CELL, DEL_V, DEL_E, DEL_F, DEL_C, SWAP_V, SWAP_E, SWAP_F, SWAP_C,
-    GC, CLEAR, DEFER, FAST, VBU, EBU, FBU, PROP_NEW, COLLAPSE, N_OPK
+    GC, CLEAR, DEFER, FAST, VBU, EBU, FBU, PROP_NEW, COLLAPSE, STATUS_GC, N_OPK
 };
 static const char *OPNAMES[N_OPK] = {
     "add_vertex", "add_n_vertices", "add_edge", "add_face_v", "add_face_he", "add_cell_hf", "add_cell_v",
@@ -52,7 +52,7 @@ static const char *OPNAMES[N_OPK] = {
     "swap_vertex_indices", "swap_edge_indices", "swap_face_indices", "swap_cell_indices",
     "collect_garbage", "clear", "enable_deferred_deletion", "enable_fast_deletion",
     "enable_vertex_bottom_up_incidences", "enable_edge_bottom_up_incidences", "enable_face_bottom_up_incidences",
-    "prop_new", "collapse_edge"};
+    "prop_new", "collapse_edge", "gc_with_marks"};
 
 struct Op {
     OpK k = ADD_VERTEX;
@@ -197,6 +197,8 @@ struct Sys {
     PropSet<Entity::Cell> pC;
     std::optional<MeshPropertyT<int>> pM;
     bool tainted = false;  // history contains set_face / set_cell (C09 excludes those)
+    // C04: handles handed in for tracking by the last gc_with_marks (all slots of the pre-state + one invalid handle each)
+    std::vector<VertexHandle> trk_v; std::vector<HalfEdgeHandle> trk_he; std::vector<HalfFaceHandle> trk_hf; std::vector<CellHandle> trk_c;
     bool late_created = false;
 
     explicit Sys(const Config &c)
@@ -350,6 +352,45 @@ inline OpResult exec_op(Sys &s, const Op &o, Viols *vs = nullptr) {
             mk(s.pC, Entity::Cell(), [&](CellHandle h) { return s.cl[h]; }, m.n_cells());
         }
         break;
+    case STATUS_GC: {
+        // a[0] mode: 0 deferred deletes + collect_garbage, 1 deferred deletes + enable_deferred_deletion(false),
+        //            2/3 status marks + garbage_collection(manifold 0/1), 4/5 the same with every handle tracked
+        // a[1..] marks: kind*1000 + handle (kind 0 V, 1 E, 2 F, 3 C), resolved through labels taken up front
+        int mode = o.a[0];
+        std::vector<std::pair<int, int>> marks;  // (kind, label)
+        for (int i = 1; i < o.n; ++i) { int kind = o.a[i] / 1000, h = o.a[i] % 1000; marks.push_back({kind, kind == 0 ? s.vl[VertexHandle(h)] : kind == 1 ? s.el[EdgeHandle(h)] : kind == 2 ? s.fl[FaceHandle(h)] : s.cl[CellHandle(h)]}); }
+        auto find = [&](int kind, int label) -> int {
+            size_t n = kind == 0 ? m.n_vertices() : kind == 1 ? m.n_edges() : kind == 2 ? m.n_faces() : m.n_cells();
+            for (size_t i = 0; i < n; ++i) {
+                int l = kind == 0 ? s.vl[VertexHandle((int)i)] : kind == 1 ? s.el[EdgeHandle((int)i)] : kind == 2 ? s.fl[FaceHandle((int)i)] : s.cl[CellHandle((int)i)];
+                bool del = kind == 0 ? m.is_deleted(VertexHandle((int)i)) : kind == 1 ? m.is_deleted(EdgeHandle((int)i)) : kind == 2 ? m.is_deleted(FaceHandle((int)i)) : m.is_deleted(CellHandle((int)i));
+                if (l == label && !del) return (int)i;
+            }
+            return -1;
+        };
+        if (mode <= 1) {
+            for (auto &mk : marks) { int h = find(mk.first, mk.second); if (h < 0) continue; if (mk.first == 0) m.delete_vertex(VertexHandle(h)); else if (mk.first == 1) m.delete_edge(EdgeHandle(h)); else if (mk.first == 2) m.delete_face(FaceHandle(h)); else m.delete_cell(CellHandle(h)); }
+            if (mode == 0) m.collect_garbage(); else m.enable_deferred_deletion(false);
+        } else {
+            StatusAttrib status(m);
+            for (auto &mk : marks) { int h = find(mk.first, mk.second); if (h < 0) continue; if (mk.first == 0) status[VertexHandle(h)].set_deleted(true); else if (mk.first == 1) status[EdgeHandle(h)].set_deleted(true); else if (mk.first == 2) status[FaceHandle(h)].set_deleted(true); else status[CellHandle(h)].set_deleted(true); }
+            if (mode <= 3) status.garbage_collection(mode == 3);
+            else {
+                s.trk_v.clear(); s.trk_he.clear(); s.trk_hf.clear(); s.trk_c.clear();
+                for (int i = -1; i < (int)m.n_vertices(); ++i) s.trk_v.push_back(VertexHandle(i));
+                for (int i = -1; i < (int)m.n_halfedges(); ++i) s.trk_he.push_back(HalfEdgeHandle(i));
+                for (int i = -1; i < (int)m.n_halffaces(); ++i) s.trk_hf.push_back(HalfFaceHandle(i));
+                for (int i = -1; i < (int)m.n_cells(); ++i) s.trk_c.push_back(CellHandle(i));
+                std::vector<VertexHandle *> pv; std::vector<HalfEdgeHandle *> phe; std::vector<HalfFaceHandle *> phf; std::vector<CellHandle *> pc;
+                for (auto &h : s.trk_v) pv.push_back(&h);
+                for (auto &h : s.trk_he) phe.push_back(&h);
+                for (auto &h : s.trk_hf) phf.push_back(&h);
+                for (auto &h : s.trk_c) pc.push_back(&h);
+                status.garbage_collection(pv, phe, phf, pc, mode == 5);
+            }
+        }
+        break;
+    }
     case COLLAPSE:
 #if defined(MC_TET)
         r.ret = m.collapse_edge(HalfEdgeHandle(o.a[0])).idx();
